@@ -18,8 +18,9 @@ try:
     if not out['applies']:
         out['apply_error'] = r.stderr[-300:]
         print(json.dumps(out, indent=1)); sys.exit(1)
-    r = sh(f'cd {wt} && env -u BITSTRING_VERIF /venv/bin/python -m pytest -q -p no:cacheprovider --benchmark-disable -q 2>&1 | tail -2', timeout=900)
-    out['suite_passes'] = ('failed' not in r.stdout and 'error' not in r.stdout.lower())
+    if not os.environ.get('BENIGN_NO_SUITE'):
+        r = sh(f'cd {wt} && env -u BITSTRING_VERIF /venv/bin/python -m pytest -q -p no:cacheprovider --benchmark-disable -q 2>&1 | tail -2', timeout=900)
+        out['suite_passes'] = ('failed' not in r.stdout and 'error' not in r.stdout.lower())
     out['checks'] = {}
     for c in checks:
         env = dict(os.environ, BITSIM_REPO=wt)
